@@ -221,6 +221,41 @@
             }
         }
         assert!(checked > 250_000);
+        // bounds and steps just OUTSIDE the i64 range (the far side of the statement's "+-2^63 boundaries"): Python clamps
+        // them - no sequence is that long - so the slice is the one the nearest i64 gives, and it does not fail
+        // ("a zero step is an error; nothing else about a slice can fail")
+        {
+            let big_pos = || vec![Value::from(1u64 << 63), Value::from(u64::MAX), Value::from(u128::MAX), Value::from(1i128 << 100)];
+            let big_neg = || vec![Value::from(-(1i128 << 63) - 1), Value::from(i128::MIN), Value::from(-(1i128 << 100))];
+            let small: [Option<i64>; 6] = [None, Some(0), Some(1), Some(-1), Some(-2), Some(3)];
+            let mk = |kind: u8, n: usize| match kind {
+                0 => Value::from_bytes((0..n as u8).collect()),
+                1 => Value::from(chars_multi[..n].iter().collect::<String>()),
+                2 => Value::from((0..n as i64).map(Value::from).collect::<Vec<_>>()),
+                _ => Value::make_iterable(move || (0..n as i64).filter(|x| *x >= 0).map(Value::from)),
+            };
+            let show = |r: Result<Value, Error>, ctx: &str| -> String { match r { Ok(v) => match v.try_iter() { Ok(it) if v.as_str().is_none() && v.as_bytes().is_none() => format!("{:?}", it.collect::<Vec<_>>()), _ => format!("{v:?}") }, Err(e) => panic!("slice failed {ctx}: {e}") } };
+            let mut big_checked = 0;
+            for kind in 0..4u8 { for n in 0..=4usize { for &a in &small { for &b in &small {
+                for (bigs, clamp) in [(big_pos(), i64::MAX), (big_neg(), i64::MIN)] { for big in bigs {
+                    // as start, as stop, as step
+                    for pos in 0..3 {
+                        let (s1, e1, k1, s2, e2, k2) = match pos {
+                            0 => (big.clone(), opt_val(a), opt_val(b), Value::from(clamp), opt_val(a), opt_val(b)),
+                            1 => (opt_val(a), big.clone(), opt_val(b), opt_val(a), Value::from(clamp), opt_val(b)),
+                            _ => (opt_val(a), opt_val(b), big.clone(), opt_val(a), opt_val(b), Value::from(clamp)),
+                        };
+                        if pos < 2 && b == Some(0) { continue; }
+                        let ctx = format!("kind={kind} n={n} pos={pos} big={big} a={a:?} b={b:?}");
+                        let got = show(slice(mk(kind, n), s1, e1, k1), &ctx);
+                        let want = show(slice(mk(kind, n), s2, e2, k2), &ctx);
+                        assert!(got == want, "{ctx}: got {got}, the clamped bound gives {want}");
+                        big_checked += 1;
+                    }
+                }}
+            }}}}
+            assert!(big_checked > 5000, "{big_checked}");
+        }
         // subscripts: v[i] is Python's element for -n <= i < n and undefined otherwise, for every kind (the lazy kinds
         // with and without a known length, and a one-shot iterator)
         for kind in 0..8u8 { for n in 0..=6usize { for idx in -9i64..=9 {
